@@ -15,6 +15,7 @@ import Ajson.Proofs.CloneSound
 import Ajson.Proofs.Steps
 import Ajson.Proofs.UnpackCanon
 import Ajson.Proofs.CellsSteps
+import Ajson.Proofs.Detached
 
 namespace Ajson.Props.C06
 open Ajson Ajson.Heap
@@ -249,5 +250,17 @@ theorem C06_get_array_get_object_after_any_history {h h' : Heap} (hs : Proofs.St
     (h'.typeOf n = .object → (h'.getObject (some n)).2 = .ok (h'.childMap n)) := by
   obtain ⟨s', _, c'⟩ := Proofs.reachedS_sound R hs hac c
   exact ⟨fun ht => Proofs.getArray_value s' c'.ok n hn ht, fun ht => Proofs.getObject_value s' c'.ok n hn ht⟩
+
+/-- **detached and replaced nodes have no parent**: the node a successful deletion removes (DeleteNode / Delete through `remove`,
+DeleteKey / PopKey, DeleteIndex / PopIndex — the node the Pop variants hand back), and every former child of a node overwritten by
+SetNull / SetNumeric / SetString / SetBool -/
+theorem C06_detached_and_replaced_have_no_parent (h : Heap) (n : Nat) :
+    (∀ v : Nat, v < h.size → (h.remove n v).2 = .ok () → ((h.remove n v).1.get v).parent = none) ∧
+    (∀ k c, (h.popKey (some n) k).2 = .ok c → c < h.size → ((h.popKey (some n) k).1.get c).parent = none) ∧
+    (∀ i c, (h.popIndex (some n) i).2 = .ok c → c < h.size → ((h.popIndex (some n) i).1.get c).parent = none) ∧
+    (∀ (v : SetVal) (c : Nat), v.type.isContainer = false → c ∈ (h.childMap n).vals → c < h.size → c ≠ n →
+      ((h.update (some n) v).1.get c).parent = none) :=
+  ⟨fun v hv ok => Proofs.remove_detaches h n v hv ok, fun k c ok hc => Proofs.popKey_detaches h n k c ok hc,
+   fun i c ok hc => Proofs.popIndex_detaches h n i c ok hc, fun v c hv hc hlt hne => Proofs.update_scalar_detaches h n c v hv hc hlt hne⟩
 
 end Ajson.Props.C06
